@@ -64,6 +64,31 @@ fn materialize(t: &Value, style: u64) -> Vec<u8> {
         "notjson" => b"nonsense".to_vec(),
         "badutf8" => vec![0xff, 0xfe, b'{', b'}'],
         "junk" => b"JUNK-ON-STDIN".to_vec(),
+        // nesting far beyond the parser's recursion limit: must be a parse error, never a stack overflow
+        "deep100k" => {
+            let mut v = vec![b'['; 60_000];
+            v.extend(vec![b']'; 60_000]);
+            v
+        }
+        "deepobj100k" => {
+            let mut v = Vec::new();
+            for _ in 0..20_000 {
+                v.extend_from_slice(b"{\"a\":");
+            }
+            v.push(b'1');
+            v.extend(vec![b'}'; 20_000]);
+            v
+        }
+        // a VALID rule text at the deepest nesting the parser accepts: 126 unary negations of true
+        "nest126" => {
+            let mut v = Vec::new();
+            for _ in 0..126 {
+                v.extend_from_slice(b"{\"!\":");
+            }
+            v.extend_from_slice(b"true");
+            v.extend(vec![b'}'; 126]);
+            v
+        }
         other => die(&format!("unknown text class {}", other)),
     }
 }
